@@ -71,10 +71,44 @@ def modules():
 
 
 # --------------------------------------------------------------------------------------
+# fault injection: the spool file cannot be created.  Done from outside the framework, the way it happens in
+# production (`tempfile.tempdir` pointing at a directory that is gone / at something that is not a directory), so it
+# does not depend on how body_mixin spells the call.  Every flavour makes `tempfile.TemporaryFile()` raise an OSError.
+FAULTS = ('missing', 'notdir')
+
+
+class temp_fault:
+    def __init__(self, kind):
+        self.kind = kind
+
+    def __enter__(self):
+        import os
+        import tempfile
+        self.old = tempfile.tempdir
+        if self.kind == 'missing':
+            tempfile.tempdir = os.path.join(os.path.dirname(os.path.abspath(__file__)), 'no-such-dir', 'tmp')
+        elif self.kind == 'notdir':
+            tempfile.tempdir = os.path.abspath(__file__)
+        elif self.kind:
+            raise AssertionError(self.kind)
+
+    def __exit__(self, *exc):
+        import tempfile
+        tempfile.tempdir = self.old
+        return False
+
+
+def err_name(e, fault):
+    """errors as class names; under an injected fault every flavour of OSError is `OSError`"""
+    return 'OSError' if fault and isinstance(e, OSError) else type(e).__name__
+
+
+# --------------------------------------------------------------------------------------
 # unit entry point
 
-def run_read(data, sched, buf, cl, chunked, maxb, hook=None, watch=True):
-    """-> dict(ok, bytes|err, spill, req, maxoff, calls); hook = (when, fn) runs fn inside read()"""
+def run_read(data, sched, buf, cl, chunked, maxb, hook=None, watch=True, fault=None):
+    """-> dict(ok, bytes|err, spill, req, maxoff, calls); hook = (when, fn) runs fn inside read();
+    fault = one of FAULTS: the call runs with an unusable temp directory"""
     bm, _ = modules()
     st = HookStream(data, sched, *hook) if hook else RecStream(data, sched)
     res = dict(ok=False, err=None, bytes=None, spill=None)
@@ -82,7 +116,8 @@ def run_read(data, sched, buf, cl, chunked, maxb, hook=None, watch=True):
     def go():
         return bm._body_read(st.read, buf, content_length=cl, chunked=chunked, max_body_size=maxb)
     try:
-        body = _guard(go, watch)
+        with temp_fault(fault):
+            body = _guard(go, watch)
         res['ok'] = True
         res['spill'] = not isinstance(body, io.BytesIO)
         body.seek(0)
@@ -91,7 +126,7 @@ def run_read(data, sched, buf, cl, chunked, maxb, hook=None, watch=True):
     except core.Hang:
         res['err'] = 'HANG'
     except Exception as e:
-        res['err'] = type(e).__name__
+        res['err'] = err_name(e, fault)
     res.update(req=sum(st.requested), maxoff=st.maxoff, calls=st.calls)
     return res
 
@@ -103,8 +138,8 @@ def ans_read(res):
     return f'err {res["err"]} {tail}'
 
 
-def line_read(data, sched, buf, cl, chunked, maxb):
-    return f'body read {cl} {1 if chunked else 0} {buf} {opt(maxb)} {hb(data)} {nl(sched)}'
+def line_read(data, sched, buf, cl, chunked, maxb, fault=None):
+    return f'body {"readf" if fault else "read"} {cl} {1 if chunked else 0} {buf} {opt(maxb)} {hb(data)} {nl(sched)}'
 
 
 # --------------------------------------------------------------------------------------
@@ -227,7 +262,8 @@ def get_app(map_key, memfile, maxbody, tag=''):
     return app
 
 
-def run_wsgi(map_key, memfile, maxbody, cl_hdr, te_hdr, data, sched, ops, ctype=None, hook=None, watch=True, tag=''):
+def run_wsgi(map_key, memfile, maxbody, cl_hdr, te_hdr, data, sched, ops, ctype=None, hook=None, watch=True, tag='',
+             fault=None):
     app = get_app(map_key, memfile, maxbody, tag)
     st = HookStream(data, sched, *hook) if hook else RecStream(data, sched)
     errs = io.StringIO()
@@ -256,7 +292,8 @@ def run_wsgi(map_key, memfile, maxbody, cl_hdr, te_hdr, data, sched, ops, ctype=
         return body
     res = dict(status=None, outs=list(app.verif_outs), info=app.verif_info)
     try:
-        res['resp_body'] = _guard(go, watch)
+        with temp_fault(fault):
+            res['resp_body'] = _guard(go, watch)
         res['status'] = int(started[0].split()[0]) if started else None
     except core.Hang:
         res['status'] = 'HANG'
@@ -266,6 +303,8 @@ def run_wsgi(map_key, memfile, maxbody, cl_hdr, te_hdr, data, sched, ops, ctype=
     res['info'] = app.verif_info
     # the buffered copy may be a temporary file
     b = env.get('ombott.request.body')
+    # what the request left in memory: the size of the buffered copy when it is an in-memory buffer
+    res['mem_body'] = len(b.getbuffer()) if isinstance(b, io.BytesIO) else None
     if b is not None and not isinstance(b, io.BytesIO):
         try:
             b.close()
